@@ -6,7 +6,8 @@ from ..boot import priv
 
 PROP = 'C18'
 LEVEL = 'exploration'
-OWN = ('observer_voted', 'observer_requested_vote', 'observer_candidate_or_leader', 'observer_not_converged', 'observer_counted')
+OWN = ('observer_voted', 'observer_requested_vote', 'observer_candidate_or_leader', 'observer_not_converged', 'observer_counted',
+       'voter_tick_exception')
 INVARIANTS = OWN + ('not_majority', 'two_leaders', 'cb_twice', 'success_not_committed', 'success_wrong_result',
                     'failed_but_committed', 'dup_in_G', 'state_mismatch')
 for _i in OWN:
@@ -51,6 +52,18 @@ class C18Tap(object):
 
 
 class C18Oracle(RaftOracle):
+    def after_event(self, ev, out, touched):
+        w = self.w
+        if ev[1] == 'tick' and isinstance(out, str) and out.startswith('exc:') and w.tick_exc:
+            e = w.tick_exc[-1]
+            h = w.hosts[e[1]]
+            if not h.readonly:
+                # read-only nodes never influence the cluster: whatever they do (join, lag, leave in the middle of a
+                # transfer), a voter's tick must not be aborted by an exception
+                self.flag('voter_tick_exception', 'an exception escaped the tick of voter %d in a cluster with read-only nodes: %s at %s' % (e[1], e[2], e[3]),
+                          dict(origin=e[3]))
+        RaftOracle.after_event(self, ev, out, touched)
+
     def on_state(self, host, old, new):
         if host.readonly and new in (CANDIDATE, LEADER):
             self.flag('observer_candidate_or_leader', 'read-only host %d entered state %d' % (host.idx, new))
